@@ -1,6 +1,7 @@
 import NomtModel.Driver.Parse
 import NomtModel.Driver.AllocMode
 import NomtModel.Store.OvfModel
+import NomtModel.Store.OvfFast
 import Std.Data.HashMap
 /-!
 Driver mode `overflow` (C01 / C19 / C16): the executable model of `beatree/ops/overflow.rs` (`Store/OvfModel.lean`)
@@ -142,7 +143,7 @@ def ovfStep (st : OvfSt) (line : String) : OvfSt × String :=
   | ["chunk", v] =>
     match parseValue v with
     | some (value, full) =>
-      match chunk value st.alloc (fun _ => zeroPage) with
+      match chunkFast value st.alloc (fun _ => zeroPage) with   -- = `chunk` (`chunkFast_eq`)
       | none => (st, "panic")
       | some out =>
         let pages := out.writes.foldl (fun m w => m.insert w.1 w.2) st.pages
